@@ -1,7 +1,7 @@
 (* Proofs/Instr_proofs.v — lemmas about Michelson/Instr.v: decidable type equality, induction principles for
    the nested value types, run-time typing vs rt_type, literals, stack shuffles. *)
 From Coq Require Import List ZArith Bool Arith Lia.
-From PV Require Import Base.Bytes Michelson.Instr.
+From PV Require Import Base.Bytes Michelson.Instr Michelson.Typing.
 Import ListNotations.
 
 Lemma ty_eqb_refl t : ty_eqb t t = true.
@@ -158,7 +158,7 @@ Proof.
   - apply andb_prop in Ht as [H1 H2]. apply andb_prop in H1 as [H1 H3]. apply ty_eqb_eq in H1. congruence.
   - apply andb_prop in Ht as [H1 H2]. apply andb_prop in H1 as [H1 H3]. apply andb_prop in H1 as [H1 H4].
     apply ty_eqb_eq in H1. apply ty_eqb_eq in H4. congruence.
-  - apply andb_prop in Ht as [H1 H2]. apply ty_eqb_eq in H1. apply ty_eqb_eq in H2. congruence.
+  - apply andb_prop in Ht as [H1 H3]. apply andb_prop in H1 as [H1 H2]. apply ty_eqb_eq in H1. apply ty_eqb_eq in H2. congruence.
 Qed.
 
 Lemma typed_list_inv t' l a : typed (PList t' l) (TList a) -> t' = a /\ Forall (fun x => typed x a) l.
@@ -214,22 +214,19 @@ Proof.
   - apply ty_eqb_eq in H2. subst. eauto.
   - apply ty_eqb_eq in H1. subst. eauto.
 Qed.
+Lemma typed_lambda_inv v a b : typed v (TLambda a b) -> exists body, v = PLam a b body /\ lam_body_ok a b body = true.
+Proof.
+  destruct v; unfold typed; simpl; try discriminate. intros H.
+  apply andb_prop in H as [H1 H3]. apply andb_prop in H1 as [H1 H2]. apply ty_eqb_eq in H1. apply ty_eqb_eq in H2. subst. eauto.
+Qed.
 Lemma typed_list_inv' v a : typed v (TList a) -> exists l, v = PList a l /\ Forall (fun x => typed x a) l.
 Proof.
   destruct v; unfold typed; try (simpl; discriminate). intros H. apply typed_list_inv in H as [-> H]. eauto.
 Qed.
 
 (* ---- literals ---- *)
-(* literals without sets and maps (set/map literals are outside the proved fragment) *)
-Fixpoint no_coll (t : ty) : bool :=
-  match t with
-  | TSet _ | TMap _ _ => false
-  | TPair a b | TOr a b => no_coll a && no_coll b
-  | TOption a | TList a => no_coll a
-  | _ => true
-  end.
-
-Lemma py_of_data_typed d : forall t, data_has_type t d = true -> no_coll t = true ->
+(* literals without sets and maps ([has_coll t = false]: set/map literals are outside the proved fragment) *)
+Lemma py_of_data_typed d : forall t, data_has_type t d = true -> has_coll t = false ->
   exists v, py_of_data t d = Some v /\ typed v t /\ erase v = value_of_data d.
 Proof.
   unfold typed.
@@ -246,15 +243,15 @@ Proof.
   - eexists; repeat split.
   - eexists; repeat split.
   - eexists; repeat split.
-  - apply andb_prop in Ht as [H1 H2]. apply andb_prop in Hn as [N1 N2].
+  - apply andb_prop in Ht as [H1 H2]. apply orb_false_elim in Hn as [N1 N2].
     destruct (IHx _ H1 N1) as (v1 & E1 & T1 & R1). destruct (IHy _ H2 N2) as (v2 & E2 & T2 & R2).
     rewrite E1, E2. eexists; repeat split; simpl; [rewrite T1, T2; reflexivity | congruence].
   - eexists; repeat split. simpl. apply ty_eqb_refl.
   - destruct (IHx _ Ht Hn) as (v & E & T & R). rewrite E. simpl. eexists; repeat split; simpl; [assumption | congruence].
-  - apply andb_prop in Hn as [N1 N2]. destruct (IHx _ Ht N1) as (v & E & T & R). rewrite E. simpl. eexists; repeat split; simpl.
+  - apply orb_false_elim in Hn as [N1 N2]. destruct (IHx _ Ht N1) as (v & E & T & R). rewrite E. simpl. eexists; repeat split; simpl.
     + rewrite T, ty_eqb_refl. reflexivity.
     + congruence.
-  - apply andb_prop in Hn as [N1 N2]. destruct (IHx _ Ht N2) as (v & E & T & R). rewrite E. simpl. eexists; repeat split; simpl.
+  - apply orb_false_elim in Hn as [N1 N2]. destruct (IHx _ Ht N2) as (v & E & T & R). rewrite E. simpl. eexists; repeat split; simpl.
     + rewrite T, ty_eqb_refl. reflexivity.
     + congruence.
   - (* lists *)
